@@ -61,6 +61,9 @@ inductive Ev where
   | mrt (c : Change) (emb : Option Bytes)
   | down (addr : Ip) (asn id uptime : Nat) (r : SessDown) (emb : Option Bytes)
   | locUp (rid : Bytes) (asn : Nat) (emb : Option Bytes)
+  | live (ap : Bool) (lrid lasn rasn rrid : Nat) (acts : List (Bool × Nat × Bytes)) (late : Bool)
+      (sentOpen recvOpen : Content)
+      (embs : List (Option Bytes))
   deriving DecidableEq, Repr
 
 /-- `adj_rib_in_to_bmp_update` / `adj_rib_out_to_bmp_update` / the body of `adj_rib_in_to_mrt` / `loc_rib_to_bmp`:
@@ -179,6 +182,71 @@ def flushRecs (addr : Ip) (asn id upts : Nat) (post : Bool) (chgs : List Change)
 def locUpOpen (rid : Bytes) (asn : Nat) : Content :=
   .other (s!"(open {asn} 0 {rid.foldl (fun a b => a * 256 + b) 0} (caps (as4 {asn})))".toList.map Char.toNat)
 
+/-! ### end to end: one eBGP IPv4 session observed by `BmpClient::serve` with policy `all`
+
+What `on_established` → `TableManager::peer_up`, `insert_route` / `remove_route` (the events of
+`notify_adj_rib_in[_post]`, `distribute_update`), `unregister_peer` → `peer_down` and the arms of `serve` make of
+it: the serve connected before the session sees the Loc-RIB Peer Up, the live Peer Up, per received UPDATE the
+pre-policy, post-policy, Loc-RIB and (withdrawn towards the sender itself) Adj-RIB-Out pre/post Route Monitoring,
+at the end the Loc-RIB withdrawal of what was left and the Peer Down; a serve connecting while the session is up
+sees the snapshot: Peer Up (`bmp_peer_up`), flushed pre- and post-policy routes with End-of-RIB, Loc-RIB Peer Up,
+Loc-RIB routes with End-of-RIB, then the same end. -/
+
+def liveAttrs (rasn : Nat) : List Attr :=
+  [ { code := 1, flags := 64, kind := .val, val := 0, data := [] },
+    { code := 2, flags := 64, kind := .bin, val := 0, data := [2, 1] ++ u32 rasn } ]
+
+def liveContent (rasn : Nat) (a : Bool × Nat × Bytes) : Content :=
+  if a.1 then .reach 65537 [a.2] (some [10, 0, 0, 1]) (liveAttrs rasn) else .unreach 65537 [a.2]
+
+/-- (path id, prefix) pairs installed after the actions, oldest first -/
+def liveRemaining (acts : List (Bool × Nat × Bytes)) : List (Nat × Bytes) :=
+  acts.foldl (fun acc a => if a.1 then (acc.filter (· != a.2)) ++ [a.2] else acc.filter (· != a.2)) []
+
+def livePeerHdr (flags rasn rrid : Nat) : PeerHdr :=
+  { ptype := 0, flags := flags, dist := 0, addr := .v4 [127, 0, 0, 1], asn := rasn, bgpId := u32 rrid, ts := 0 }
+
+def liveLocHdr (lasn lrid : Nat) : PeerHdr :=
+  { ptype := 3, flags := 0, dist := 0, addr := .v4 [0, 0, 0, 0], asn := lasn, bgpId := u32 lrid, ts := 0 }
+
+def liveRecs (ap : Bool) (lrid lasn rasn rrid : Nat) (acts : List (Bool × Nat × Bytes)) (late : Bool)
+    (sentOpen recvOpen : Content) (embs : List (Option Bytes)) : List Rec :=
+  -- `rm`: add-path off (Loc-RIB, Adj-RIB-Out, End-of-RIB); `rmIn`: the session's setting (`has_addpath`)
+  let rm (h : PeerHdr) (c : Content) : Option Bytes → Rec := fun e => .bmpRm h false e c
+  let rmIn (h : PeerHdr) (c : Content) : Option Bytes → Rec := fun e => .bmpRm h ap e c
+  let peer := livePeerHdr 0 rasn rrid
+  let loc := liveLocHdr lasn lrid
+  let locUp : Option Bytes → Rec := fun e =>
+    .bmpUp loc (.v4 [0, 0, 0, 0]) 0 0 e (locUpOpen (u32 lrid) lasn) (locUpOpen (u32 lrid) lasn)
+  let peerUp : Option Bytes → Rec := fun e => .bmpUp peer (.v4 [127, 0, 0, 1]) 0 0 e sentOpen recvOpen
+  let left := liveRemaining acts
+  let reach (n : Nat × Bytes) : Content := liveContent rasn (true, n)
+  -- the Loc-RIB view has no path identifiers
+  let locC (c : Content) : Content :=
+    match c with
+    | .reach f e nh a => .reach f (e.map fun x => (0, x.2)) nh a
+    | .unreach f e => .unreach f (e.map fun x => (0, x.2))
+    | c => c
+  let closing : List (Option Bytes → Rec) :=
+    left.map (fun n => rm loc (.unreach 65537 [(0, n.2)])) ++ [fun _ => .bmpDown peer .remoteUnexpected]
+  let eor (h : PeerHdr) : List (Option Bytes → Rec) := if left.isEmpty then [] else [rm h (.eor 65537)]
+  let early : List (Option Bytes → Rec) :=
+    [locUp, peerUp] ++
+      acts.flatMap (fun a =>
+        [ rmIn peer (liveContent rasn a), rmIn (livePeerHdr 64 rasn rrid) (liveContent rasn a),
+          rm loc (locC (liveContent rasn a)) ] ++
+        -- without add-path the route is (not) advertised back: Adj-RIB-Out pre / post withdrawal towards the peer
+        (if ap then [] else
+          [ rm (livePeerHdr 16 rasn rrid) (.unreach 65537 [a.2]), rm (livePeerHdr 80 rasn rrid) (.unreach 65537 [a.2]) ])) ++
+      closing
+  let lateL : List (Option Bytes → Rec) :=
+    if late then
+      [peerUp] ++ left.map (fun n => rmIn peer (reach n)) ++ eor peer ++
+        left.map (fun n => rmIn (livePeerHdr 64 rasn rrid) (reach n)) ++ eor (livePeerHdr 64 rasn rrid) ++
+        [locUp] ++ left.map (fun n => rm loc (locC (reach n))) ++ eor loc ++ closing
+    else []
+  zipEmb (early ++ lateL) embs
+
 /-- The record(s) the daemon hands to the codecs for one event. -/
 def Ev.toRecs : Ev → List Rec
   | .flush addr asn id upts post chgs embs => flushRecs addr asn id upts post chgs embs
@@ -198,6 +266,7 @@ def Ev.toRecs : Ev → List Rec
   | .down addr asn id uptime r emb =>
       [.bmpDown { ptype := 0, flags := 0, dist := 0, addr := addr, asn := asn, bgpId := u32 id,
                   ts := uptime % 4294967296 } (sessDownToBmp r emb)]
+  | .live ap lrid lasn rasn rrid acts late so ro embs => liveRecs ap lrid lasn rasn rrid acts late so ro embs
   | .locUp rid asn emb =>
       [.bmpUp { ptype := 3, flags := 0, dist := 0, addr := .v4 [0, 0, 0, 0], asn := asn, bgpId := rid, ts := 0 }
          (.v4 [0, 0, 0, 0]) 0 0 emb (locUpOpen rid asn) (locUpOpen rid asn)]
@@ -247,6 +316,8 @@ def Ev.tags : Ev → List String
       ["ev-mrt", v46 c.src.raddr "afi", apTag c.ap, (updContent c.fam c.nlris c.attrs c.nh).head] ++ embTags emb
   | .down _ _ _ _ r _ => ["ev-down", r.tag]
   | .locUp _ _ emb => ["ev-locup"] ++ embTags emb
+  | .live ap _ _ _ _ acts late _ _ _ =>
+      ["ev-live", if late then "late-serve" else "early-serve", apTag ap, s!"lacts-{min acts.length 3}"]
 
 def Item.tags : Item → List String
   | .pkt r => r.tags
